@@ -5,6 +5,7 @@ import (
 	"os"
 	"os/exec"
 	"path/filepath"
+	"strings"
 	"sync"
 	"time"
 
@@ -119,10 +120,11 @@ func c10Shard(t Tier, shard, nshards int) (run *report.Run) {
 		maxLen = 3
 	}
 	dl := deadline(t, 140*time.Second, 20*time.Minute)
-	cases := buildShard(e, maxLen, shard, nshards)
+	// (the short special histories first: they are few, and the listed finding F15 lives in one of them)
+	cases := cleanupCases(e, shard, nshards)
+	cases = append(cases, buildShard(e, maxLen, shard, nshards)...)
 	cases = append(cases, upgradeCases(e, shard, nshards)...) // histories containing an in-process software upgrade
 	cases = append(cases, longCases(e, shard, nshards)...)
-	cases = append(cases, cleanupCases(e, shard, nshards)...)
 	cases = append(cases, variantCases(e, shard, nshards)...) // what genesis import left in process memory must not matter after a restart
 	var mu sync.Mutex
 	evals, nontrivial := 0, 0
@@ -132,7 +134,15 @@ func c10Shard(t Tier, shard, nshards int) (run *report.Run) {
 		defer mu.Unlock()
 		sp := stopPointName(c.hist, stop)
 		kind := sp[len("blockN:"):]
-		run.Add(report.Viol{Kind: "restart-divergence", Sig: "restart-divergence:" + mode + ":" + kind + ":" + firstWords(why, 4),
+		sig := "restart-divergence:" + mode + ":" + kind + ":" + firstWords(why, 4)
+		if strings.Contains(why, preAnteGasTag+":") {
+			// one root cause whatever the stop point and the way the node was stopped: named by what differs and where
+			sig = "restart-divergence:" + preAnteGasTag + ":later-block"
+			if strings.Contains(why, preAnteGasTag+":blocks=[0] ") {
+				sig = "restart-divergence:" + preAnteGasTag + ":first-block-after-restart"
+			}
+		}
+		run.Add(report.Viol{Kind: "restart-divergence", Sig: sig,
 			Msg:    fmt.Sprintf("history %s stopped at %s (%s restart): %s", c.name, sp, mode, why),
 			Replay: map[string]any{"check": "C10", "history": c.name, "stop_point": sp, "mode": mode}})
 	}
